@@ -43,8 +43,8 @@ def ulp_diff(a: float, b: float) -> float:
 
 def scenarios(ctx):
     quick = ctx.quick
-    consts = dict(MaxL=5 if quick else 7, MaxCS=3 if quick else 4, Ws="{1, 2, 3}" if quick else "{1, 2, 3, 4}", Pres='{"absent"}', Faults="{0}", Wheres='{"reader"}', Kills='{"none"}', Deviations="{}")
-    res = tlc.run("CreatePipeline", tlc.make_cfg(constants=consts, invariants=["TypeOK", "ExactOnSuccess", "FailStop", "PrintDone"], properties=["Termination"]),
+    consts = dict(MaxL=5 if quick else 7, MaxCS=3 if quick else 4, Ws="{1, 2, 3}" if quick else "{1, 2, 3, 4}", Pres='{"absent"}', Faults="{0}", Wheres='{"reader"}', Kills='{"none"}', BufSizes="{0, 1, 2, 3}", Deviations="{}")
+    res = tlc.run("CreatePipeline", tlc.make_cfg(constants=consts, invariants=["TypeOK", "BufferedOrWritten", "ExactOnSuccess", "FailStop", "PrintDone"], properties=["Termination"]),
                   coverage=True, timeout=1500)
     ctx.add_tlc("CreatePipeline fault-free scenarios, all schedules", res, constants=consts)
     ctx.require(res.ok, f"CreatePipeline violated: {res.error_kind} {res.error_name}")
@@ -169,7 +169,7 @@ def compare(got, exp, mode):
     return None
 
 
-def run_one(yaw, root, n, fmt, L, CS, W, dtype, has_w, has_z, degrees, mode, groups, progress, chooser=None, seed=0):
+def run_one(yaw, root, n, fmt, L, CS, W, dtype, has_w, has_z, degrees, mode, groups, progress, chooser=None, seed=0, buf=0):
     work = root / f"r{n}"
     work.mkdir()
     cols = base_columns(L, 1000 + L, dtype, degrees)
@@ -202,7 +202,10 @@ def run_one(yaw, root, n, fmt, L, CS, W, dtype, has_w, has_z, degrees, mode, gro
     import io
 
     with contextlib.redirect_stderr(io.StringIO()), contextlib.redirect_stdout(io.StringIO()):  # progress bar output
-        sched, outcome = detrt.run_main(main, chooser=chooser, seed=seed)
+        from harness import pipeline
+
+        with pipeline.buffersize(yaw, None if not buf else buf):      # PatchWriter buffer size (hard-coded -1 by from_*)
+            sched, outcome = detrt.run_main(main, chooser=chooser, seed=seed)
     exp = expected(cols, has_w, has_z, degrees, mode)
     return outcome, exp, cache
 
@@ -241,12 +244,13 @@ def run(ctx) -> None:
             progress = (n % 11) == 0
             nsched = 1 if W == 1 else (2 if quick else 4)
             for s in range(nsched):
+                buf = [0, 1, 2, 3, 0, 5][(n + s) % 6]
                 outcome, exp, cache = run_one(yaw, root, f"{n}_{s}", fmt, L, CS, W, dtype, has_w, has_z, degrees, mode, groups, progress,
-                                              seed=rng.randrange(1 << 30))
+                                              seed=rng.randrange(1 << 30), buf=buf)
                 ctx.evaluated(1, (fmt, L, CS, W, dtype, has_w, has_z, degrees, mode, tuple(groups or ()), s) if (L > CS or W > 1) else None)
                 ctx.validated(1)
                 params = dict(format=fmt, L=L, chunksize=CS, workers=W, dtype=dtype, weights=has_w, redshifts=has_z, degrees=degrees,
-                              mode=mode, row_groups=groups, progress=progress)
+                              mode=mode, row_groups=groups, progress=progress, buffersize=buf or -1)
                 judge(ctx, yaw, outcome, exp, cache, has_w, has_z, mode, params)
             if n <= 4:
                 ctx.sample(params)
